@@ -13,9 +13,14 @@ McHandFiles == { <<E("Po", "a")>>, <<E("Po", "a"), E("P", "b")>>, <<E("P", "b"),
                  <<E("Q", "d"), E("V", "a")>> }
 McHandFilesSmall == { <<E("Po", "a"), E("P", "b")>>, <<E("Q", "ca"), E("Po", "x")>>, <<E("Zz", "a"), E("Q", "d")>> }
 NoHandFiles == {}
+\* for the late-plugin stories: a file without the late setting (read before the plugin arrives), and files that use its old
+\* name, alone, with other settings, and its current name next to another setting's old name
+McHandFilesLate == { <<E("Q", "a")>>, <<E("No", "a")>>, <<E("No", "b"), E("Q", "a")>>, <<E("N", "a"), E("Po", "a")>> }
+McHandFilesAll == McHandFiles \cup McHandFilesLate
 GenQ  == <<"Q">>
 GenQR == <<"Q", "R">>
-OpsAll  == {"assign", "io", "tamper", "hand", "copy", "misc"}
+OpsAll  == {"assign", "io", "tamper", "hand", "copy", "misc", "late"}
+OpsLate == {"assign", "io", "tamper", "hand", "late"}
 OpsIO   == {"assign", "io", "tamper", "hand"}
 OpsCopy == {"assign", "copy", "misc"}
 StylesAll == {"short", "medium", "full"}
@@ -53,14 +58,29 @@ CopyPlan ==
           \/ Cardinality(objs) = 2 /\ last.a.n \in {"Modified", "ModifiedObj", "ModifiedNewKey", "Duplicate", "New"}
     /\ An.n \in {"Modified", "ModifiedObj", "ModifiedNewKey", "ModifiedBad", "Duplicate", "New"} => Cardinality(objs) = 1
 
+\* a settings text is read, THEN the plugin with the renamed setting N arrives, then objects made afterwards read texts that
+\* use N's old name (hand-written, or written by such an object and edited) -- and so does the object made before
+MentionsN(es) == \E q \in 1..Len(es) : Target(es[q].n) = "N"
+LatePlan ==
+    /\ An.n \in {"HandWrite", "Read", "Register", "New", "Assign", "Write", "SetOld"}
+    /\ An.n = "HandWrite" => ((file.style = "none" /\ ~reg /\ ~MentionsN(An.es))
+                              \/ (reg /\ last.a.n = "New" /\ MentionsN(An.es) /\ Cardinality(objs) = 2))
+    /\ An.n = "Read" => last.a.n \in {"HandWrite", "SetOld", "New", "Read"} /\ (last.a.n = "Read" => last.a.o # An.o /\ reg)
+    /\ An.n = "Register" => last.a.n = "Read"
+    /\ An.n = "New" => (last.a.n = "Register" \/ (reg /\ last.a.n \in {"Write", "SetOld"}))
+    /\ An.n = "Assign" => reg /\ An.s = "N" /\ An.o = 2 /\ last.a.n = "New" /\ An.r \in {"a", "ca"} /\ Cardinality(objs) = 2
+    /\ An.n = "Write" => An.o = 2 /\ last.a.n = "Assign"
+    /\ An.n = "SetOld" => last.a.n = "Write" /\ file.es[An.i].n = "N"
 \* emission: the edge label lives in `last`; states are identified without it
 St == [n |-> Cardinality(objs), val |-> [o \in 1..Cardinality(objs) |-> val[o]],
        file |-> [es |-> file.es, style |-> file.style], err |-> err,
-       inv |-> SelectSeq(<<"Po", "Xk", "Zz">>, LAMBDA x : x \in inv), shared |-> <<>>, kinds |-> <<>>,
-       extra |-> SelectSeq([o \in 1..Cardinality(objs) |-> o], LAMBDA o : o \in extra)]
-View == <<objs, val, file, err, inv, extra>>
+       inv |-> SelectSeq(<<"N", "No", "Po", "Xk", "Zz">>, LAMBDA x : x \in inv), shared |-> <<>>, kinds |-> <<>>,
+       extra |-> SelectSeq([o \in 1..Cardinality(objs) |-> o], LAMBDA o : o \in extra),
+       late |-> SelectSeq([o \in 1..Cardinality(objs) |-> o], LAMBDA o : o \in late), reg |-> reg]
+View == <<objs, val, file, err, inv, extra, reg, late>>
 Emit == PrintT(ToJson([lvl |-> TLCGet("level"), from |-> St, act |-> last'.a, to |-> St']))
 EmitIo == IoPlan /\ Emit
 EmitCopy == CopyPlan /\ Emit
 EmitIoT == IoPlanT /\ Emit
+EmitLate == LatePlan /\ Emit
 =====================================================================================================
